@@ -115,13 +115,14 @@ class Strict:
         if ctx == 'siginfo':
             if not recognised:
                 return None                  # extension point of Data / certificate SignatureInfo
-            if (t & 1) or t <= 31:
+            if t & 1:
                 return None if 'siginfo-critical' in self.relax else 'siginfo-critical'
             return None
         if t & 1:
             return 'critical'
-        if t <= 31:
-            return None if 'critical-low-even' in self.relax else 'critical-low-even'
+        # The property statement (and the library's documentation of DecodeError) define "critical" as an odd Type.
+        # An earlier version of this harness also demanded the packet format's grandfathered range 0..31; that asked for
+        # more than the statement says and was removed (false alarm, see DESIGN.md section 7b).
         return None
 
     def name(self, buf, vs, ve):
